@@ -82,12 +82,31 @@ func (r *runner) opPublish(kv map[string]string) (string, string) {
 	if err != nil {
 		return "harness-error " + err.Error(), ""
 	}
-	var viols []string
+	// the backend's own record of this op
+	calls := r.absorbCalls()
+	sentField := fmt.Sprintf(" sent=%d", len(calls))
+	if cls == "notifyfail" && len(calls) == 0 {
+		// the hand-over failed before the backend was asked: C20 demands that the transaction is forgotten
+		delete(r.refused, ti.hash)
+		r.backendDrop(ti.hash)
+	}
+	viols := r.forgottenAccepted(calls, "PublishTransaction")
+	if cls == "notifyfail" && r.backend[ti.hash] != nil && len(calls) > 0 {
+		// the subscription failed AFTER the backend accepted the transaction: the broadcast did not fail, so nothing
+		// may be forgotten (clause above); the error return alone is not a violation
+		cls = "accepted-then-notifyfail"
+	}
 	key := "publishTransaction.rejected"
 	if cls == "notifyfail" {
 		key = "reliablyPublishTransaction.notify-received-failure"
 	}
 	switch cls {
+	case "accepted-then-notifyfail":
+		if contains(after.unmined, ti.name) == 0 && ti.height < 0 {
+			r.forget(ti.name) // keep the ledger in line with what the wallet did (already reported above)
+		} else if ti.height < 0 {
+			ti.known = true
+		}
 	case "rejected", "notifyfail":
 		if perr == nil {
 			viols = append(viols, fmt.Sprintf("C20 key=%s-returned-ok: the broadcast failed but PublishTransaction returned no error", key))
@@ -167,9 +186,9 @@ func (r *runner) opPublish(kv map[string]string) (string, string) {
 		}
 	}
 	if perr != nil {
-		return "err", strings.Join(viols, "; ")
+		return "err" + sentField, strings.Join(viols, "; ")
 	}
-	return "ok", strings.Join(viols, "; ")
+	return "ok" + sentField, strings.Join(viols, "; ")
 }
 
 func parseAnswers(s string) map[string]string {
@@ -185,10 +204,60 @@ func parseAnswers(s string) map[string]string {
 	return m
 }
 
+// progress: everything the waiting loops of opResync look at; used to tell "still working" from "nothing more comes".
+func (r *runner) progress() [5]int64 {
+	r.fc.mu.Lock()
+	defer r.fc.mu.Unlock()
+	return [5]int64{int64(r.fc.delivered), atomic.LoadInt64(&theLogger.finished), atomic.LoadInt64(&theLogger.rebroadcasts),
+		int64(len(r.fc.calls)), int64(r.fc.waiting)}
+}
+
+// waitUntil polls cond; it gives up (false) when nothing at all has moved for `quiet`, or after 15 s.  On the unchanged
+// tree every wait of opResync ends through cond; the quiet period only matters when an expected event never comes.
+func (r *runner) waitUntil(cond func() bool, quiet time.Duration) bool {
+	// "quiet" = no progress during `quiet` of wall-clock time AND during 500 polls of this loop (a process that was
+	// not scheduled at all makes no progress but does not poll either)
+	deadline := time.Now().Add(20 * time.Second)
+	last, lastMove, idle := r.progress(), time.Now(), 0
+	for !cond() {
+		now := time.Now()
+		if p := r.progress(); p != last {
+			last, lastMove, idle = p, now, 0
+		}
+		idle++
+		if now.After(deadline) || (idle > 500 && now.Sub(lastMove) > quiet) {
+			return cond()
+		}
+		time.Sleep(100 * time.Microsecond)
+	}
+	return true
+}
+
+func (r *runner) startRescan() error {
+	var addrs []btcutil.Address
+	var unspent []wtxmgr.Credit
+	err := walletdb.View(r.w.Database(), func(tx walletdb.ReadTx) error {
+		var err error
+		unspent, err = r.w.TxStore.OutputsToWatch(tx.ReadBucket(wtxmgrNS))
+		return err
+	})
+	if err != nil {
+		return err
+	}
+	return r.w.Rescan(addrs, unspent)
+}
+
 // resync / restart [ans=T7@spec;T8@spec] : a rescan finishes (after a restart for `restart`); the wallet re-offers
 // its unconfirmed transactions.
+// resync twice=1 [ans=...] : TWO resynchronisations, the second finishing while the re-broadcast started by the first is
+// still blocked inside its first SendRawTransaction call (slow backend): each still-unconfirmed transaction must be
+// offered after EVERY resynchronisation, i.e. twice.
 func (r *runner) opResync(kind string, kv map[string]string) (string, string) {
 	answers := parseAnswers(kv["ans"])
+	twice := kv["twice"] == "1"
+	if twice && kind != "resync" {
+		return "bad-op", ""
+	}
 	// what should be offered, from the harness ledger and from the wallet's own store
 	var want []string
 	for _, n := range r.order {
@@ -201,6 +270,10 @@ func (r *runner) opResync(kind string, kv map[string]string) (string, string) {
 		return "harness-error " + err.Error(), ""
 	}
 	nExpected := int64(len(utxs))
+	rounds := int64(1)
+	if twice {
+		rounds = 2
+	}
 
 	if kind == "restart" {
 		old := r.fc
@@ -215,6 +288,7 @@ func (r *runner) opResync(kind string, kv map[string]string) (string, string) {
 		r.w = w
 		nf := &fakeChain{ntfn: make(chan interface{}), quit: make(chan struct{}), answers: map[chainhash.Hash]string{}, hashes: old.hashes, ctr: old.ctr}
 		r.fc = nf
+		r.nCalls = 0
 		r.userLock = map[wire.OutPoint]bool{}
 	}
 	r.fc.mu.Lock()
@@ -227,36 +301,77 @@ func (r *runner) opResync(kind string, kv map[string]string) (string, string) {
 	r.fc.mu.Unlock()
 	start := atomic.LoadInt64(&theLogger.rebroadcasts)
 	startFin := atomic.LoadInt64(&theLogger.finished)
+	finishedRounds := func() int64 { return atomic.LoadInt64(&theLogger.finished) - startFin }
+	waiting := func() int { r.fc.mu.Lock(); defer r.fc.mu.Unlock(); return r.fc.waiting }
+	const quiet = 1500 * time.Millisecond
+	held := int64(-1) // twice=1: number of re-broadcast goroutines seen blocked at the gate, if fewer than expected
 
-	if kind == "restart" {
+	switch {
+	case kind == "restart":
 		if err := r.attach(); err != nil {
 			return "harness-error attach: " + err.Error(), ""
 		}
-	} else {
-		var addrs []btcutil.Address
-		var unspent []wtxmgr.Credit
-		err := walletdb.View(r.w.Database(), func(tx walletdb.ReadTx) error {
-			var err error
-			unspent, err = r.w.TxStore.OutputsToWatch(tx.ReadBucket(wtxmgrNS))
-			return err
-		})
-		if err != nil {
-			return "harness-error " + err.Error(), ""
+	case twice && nExpected > 0:
+		gate := make(chan struct{})
+		r.fc.mu.Lock()
+		r.fc.hold = gate
+		r.fc.mu.Unlock()
+		release := func() {
+			r.fc.mu.Lock()
+			if r.fc.hold != nil {
+				r.fc.hold = nil
+				close(gate)
+			}
+			r.fc.mu.Unlock()
 		}
-		if err := r.w.Rescan(addrs, unspent); err != nil {
+		if err := r.startRescan(); err != nil {
+			release()
 			return "harness-error rescan: " + err.Error(), ""
 		}
-	}
-	// wait until the wallet has taken the RescanFinished notification, the rescan goroutines have passed it on
-	// ("Finished rescan" is logged right before `go w.resendUnminedTxs()`), and the re-broadcast goroutine has finished
-	// every transaction
-	deadline := time.Now().Add(3 * time.Second)
-	for !r.fc.allDelivered() || atomic.LoadInt64(&theLogger.finished) == startFin ||
-		atomic.LoadInt64(&theLogger.rebroadcasts)-start < nExpected {
-		if time.Now().After(deadline) {
-			return "harness-error resend timeout", ""
+		// the first re-broadcast is now stuck in its first SendRawTransaction call
+		if !r.waitUntil(func() bool { return r.fc.allDelivered() && finishedRounds() >= 1 && waiting() >= 1 }, quiet) {
+			release()
+			if !r.fc.allDelivered() || finishedRounds() < 1 {
+				return "harness-error first rescan did not finish", ""
+			}
 		}
-		time.Sleep(100 * time.Microsecond)
+		if err := r.startRescan(); err != nil {
+			release()
+			return "harness-error rescan: " + err.Error(), ""
+		}
+		// second RescanFinished delivered while the first re-broadcast is still blocked; its own re-broadcast
+		// (if the wallet starts one) gets stuck as well
+		r.waitUntil(func() bool { return r.fc.allDelivered() && finishedRounds() >= 2 && waiting() >= 2 }, quiet)
+		if n := int64(waiting()); n >= 1 && n < rounds {
+			// only n re-broadcasts exist after a quiet period: do not wait for the offers of one that was never started
+			held = n
+		}
+		release()
+		if !r.fc.allDelivered() || finishedRounds() < 2 {
+			return "harness-error second rescan did not finish", ""
+		}
+	default:
+		for i := int64(0); i < rounds; i++ {
+			if err := r.startRescan(); err != nil {
+				return "harness-error rescan: " + err.Error(), ""
+			}
+			if !r.waitUntil(func() bool { return r.fc.allDelivered() && finishedRounds() >= i+1 }, quiet) {
+				return "harness-error rescan did not finish", ""
+			}
+		}
+	}
+	// wait until the wallet has taken the RescanFinished notification(s), the rescan goroutines have passed them on
+	// ("Finished rescan" is logged right before `go w.resendUnminedTxs()`), and the re-broadcast goroutine(s) have
+	// finished every transaction.  If the expected number of offers never arrives the oracles below judge what WAS
+	// offered.
+	if !r.waitUntil(func() bool { return r.fc.allDelivered() && finishedRounds() >= rounds }, quiet) {
+		return "harness-error rescan did not finish", ""
+	}
+	if held >= 0 {
+		r.waitUntil(func() bool { return atomic.LoadInt64(&theLogger.rebroadcasts)-start >= held*nExpected }, quiet)
+		r.waitUntil(func() bool { return atomic.LoadInt64(&theLogger.rebroadcasts)-start >= rounds*nExpected }, 300*time.Millisecond)
+	} else {
+		r.waitUntil(func() bool { return atomic.LoadInt64(&theLogger.rebroadcasts)-start >= rounds*nExpected }, quiet)
 	}
 	if nExpected == 0 {
 		time.Sleep(2 * time.Millisecond) // the goroutine only reads an empty list
@@ -273,39 +388,73 @@ func (r *runner) opResync(kind string, kv map[string]string) (string, string) {
 		}
 	}
 	r.fc.mu.Unlock()
+	calls := r.absorbCalls()
 
 	var offered []string
-	pos := map[chainhash.Hash]int{}
+	first := map[chainhash.Hash]int{}
+	count := map[chainhash.Hash]int64{}
 	var viols []string
+	// C20's and C14's sentences about the re-broadcast are the same three; both properties observe them here
+	both := func(key, f string, a ...interface{}) {
+		t := fmt.Sprintf(f, a...)
+		viols = append(viols, "C20 key="+key+": "+t, "C14 key="+key+": "+t)
+	}
 	for i, h := range sent {
 		n := r.txNameByHash(h)
 		offered = append(offered, n)
-		if _, dup := pos[h]; dup {
-			viols = append(viols, fmt.Sprintf("C20 key=resendUnminedTxs.offered-twice: %s", n))
+		if _, dup := first[h]; !dup {
+			first[h] = i
 		}
-		pos[h] = i
+		count[h]++
+		if count[h] == rounds+1 {
+			both("resendUnminedTxs.offered-twice", "%s offered %d times for %d resynchronisation(s)", n, count[h], rounds)
+		}
 	}
-	for i, h := range sent {
+	for h, i := range first {
 		ti := r.txs[r.txNameByHash(h)]
 		if ti == nil {
 			continue
 		}
 		for _, in := range ti.tx.TxIn {
-			if j, ok := pos[in.PreviousOutPoint.Hash]; ok && j > i {
-				viols = append(viols, fmt.Sprintf("C20 key=resendUnminedTxs.child-before-parent: %s offered before its parent %s", ti.name, r.txNameByHash(in.PreviousOutPoint.Hash)))
+			if j, ok := first[in.PreviousOutPoint.Hash]; ok && j > i {
+				both("resendUnminedTxs.child-before-parent", "%s offered before its parent %s", ti.name, r.txNameByHash(in.PreviousOutPoint.Hash))
 			}
 		}
 	}
+	if rounds == 1 {
+		// one re-broadcast pass: no offer of a parent may follow an offer of its child at all
+		last := map[chainhash.Hash]int{}
+		for i, h := range sent {
+			last[h] = i
+		}
+		for i, h := range sent {
+			ti := r.txs[r.txNameByHash(h)]
+			if ti == nil {
+				continue
+			}
+			for _, in := range ti.tx.TxIn {
+				if j, ok := last[in.PreviousOutPoint.Hash]; ok && j > i && first[in.PreviousOutPoint.Hash] < i {
+					both("resendUnminedTxs.child-before-parent", "%s offered before a (repeated) offer of its parent %s", ti.name, r.txNameByHash(in.PreviousOutPoint.Hash))
+				}
+			}
+		}
+	}
+	sort.Strings(viols) // map iteration above
 	for _, n := range want {
-		if contains(offered, n) == 0 {
-			viols = append(viols, fmt.Sprintf("C20 key=resendUnminedTxs.not-offered: still-unconfirmed %s was not offered to the backend after the rescan", n))
+		c := int64(contains(offered, n))
+		switch {
+		case c == 0:
+			both("resendUnminedTxs.not-offered", "still-unconfirmed %s was not offered to the backend after the rescan", n)
+		case c < rounds:
+			both("resendUnminedTxs.not-offered-after-every-resync", "still-unconfirmed %s was offered %d time(s) although %d resynchronisations finished (the second while the first re-broadcast was still waiting for the backend)", n, c, rounds)
 		}
 	}
 	for _, n := range offered {
-		if m := misclassified(answers[n]); m != "" {
+		if m := misclassified(answers[n]); m != "" && contains(viols, m) == 0 {
 			viols = append(viols, m)
 		}
 	}
+	viols = append(viols, r.forgottenAccepted(calls, "resendUnminedTxs")...)
 	// ledger: apply the answers in the order the wallet used
 	for _, n := range offered {
 		switch answerClass(answers[n]) {
